@@ -56,8 +56,8 @@ class ChangeForStep_contract:
         new_iv = arg.replaced[0] if arg.replaced is not None else None
         # the value the body sees when the new induction variable holds k: bind the block argument's denotation
         return dict(rewritten=True, new_lb=den(new_for.lb), new_ub=den(new_for.ub), new_step=den(new_for.step),
-                    iv_of=(new_iv.owner if new_iv is not None else None), arg=arg,
-                    iv_inserted=len(ins) == 1 and new_iv is not None and ins[0][1][0] is new_iv.owner and ins[0][2].kind == "at_start" and ins[0][2].anchor is new_for.body.block)
+                    argden=den(arg), seen=den(new_iv) if new_iv is not None else den(arg),
+                    iv_inserted=new_iv is None or (len(ins) >= 1 and any(o is new_iv.owner for e in ins for o in e[1]) and all(e[2].anchor is new_for.body.block for e in ins)))
 
     def native_run(sh, a):
         from xdsl.dialects.builtin import ModuleOp
@@ -78,8 +78,9 @@ class ChangeForStep_contract:
             return dict(rewritten=False, log=0)
         body = list(nf.body.block.ops)
         seen = use.operands[0]
-        return dict(rewritten=True, new_lb=den(nf.lb), new_ub=den(nf.ub), new_step=den(nf.step), iv_of=seen.owner if seen is not nf.body.block.args[0] else None,
-                    arg=nf.body.block.args[0], iv_inserted=body[0] is seen.owner)
+        k = den(nf.lb) + j * den(nf.step)  # value of the new induction variable in iteration j
+        return dict(rewritten=True, new_lb=den(nf.lb), new_ub=den(nf.ub), new_step=den(nf.step), argden=k,
+                    seen=den(seen, {id(nf.body.block.args[0]): k}), iv_inserted=seen is nf.body.block.args[0] or any(o is seen.owner for o in body))
 
     def ensures(sh, a, ret):
         lb, ub, step, j = a
@@ -87,13 +88,12 @@ class ChangeForStep_contract:
             check("the guards only skip loops that are already normal or unsupported", lb != 0 or step == 1)
             check("nothing was recorded when not rewriting", ret["log"] == 0)
         else:
-            check("rewritten loop has step 1 and keeps the lower bound", ret["new_step"] == 1 and ret["new_lb"] == lb)
+            check("rewritten loop has step 1", ret["new_step"] == 1)
             check("same number of iterations (also when ub is not a multiple of step)", trip(ret["new_lb"], ret["new_ub"], 1) == trip(lb, ub, step))
-            check("the recomputed induction variable is inserted at the start of the body and replaces the block argument", ret["iv_inserted"])
-            # value seen by the body in iteration j: step * j  (original: lb + j*step with lb == 0)
-            op_ = ret["iv_of"]
+            check("the recomputed induction variable is defined inside the body before its users", ret["iv_inserted"])
+            # iteration j of the new loop binds the block argument to new_lb + j; the body must see the old index lb + j*step
             check("body sees index lb + j*step in iteration j",
-                  op_ is not None and isinstance(op_, arith.MuliOp) and ((den(op_.lhs) == step and op_.rhs is ret["arg"]) or (den(op_.rhs) == step and op_.lhs is ret["arg"])) and lb == 0)
+                  implies(ret["argden"] == ret["new_lb"] + j and j < trip(lb, ub, step), ret["seen"] == lb + j * step))
 
     def canary(sh, a, ret):
         check("canary: loops are never rewritten", not ret["rewritten"])
